@@ -102,32 +102,104 @@ def find_in(root, nodes):
     return any(id(n) in ids for n in walk(root))
 
 
+ORDER = {"Info": 0, "Warning": 1, "Error": 2}
+
+
+def _ev(e, cat):
+    """value of a boolean expression of filter_by_file for a report WITHOUT primary labels of category `cat`:
+    True / False / None (unknown)"""
+    e = strip(e)
+    k = e["k"]
+    t = render(e).replace(" ", "")
+    if k == "Lit" and e["lit"] == "bool":
+        return bool(e["value"])
+    if k == "Block":
+        from astlib import block_tail
+        tl = block_tail(e)
+        return _ev(tl, cat) if tl is not None and len(e["stmts"]) == 1 else None
+    if k == "Unary" and e["op"] == "!":
+        v = _ev(e["e"], cat)
+        return None if v is None else (not v)
+    if k == "Binary" and e["op"] in ("&&", "||"):
+        a, b = _ev(e["l"], cat), _ev(e["r"], cat)
+        if e["op"] == "&&":
+            if a is False or b is False:
+                return False
+            return True if (a is True and b is True) else None
+        if a is True or b is True:
+            return True
+        return False if (a is False and b is False) else None
+    if k == "MethodCall" and e["method"] == "is_empty" and "primary_file_ids" in render(e["recv"]):
+        return True
+    if k == "MethodCall" and e["method"] in ("any",) and "primary_file_ids" in render(e["recv"]):
+        return False  # no element
+    if k == "MethodCall" and e["method"] in ("all",) and "primary_file_ids" in render(e["recv"]):
+        return True
+    if k == "Binary" and e["op"] in ("==", "!=", ">=", "<=", ">", "<"):
+        l, r = render(strip(e["l"])).replace(" ", ""), render(strip(e["r"])).replace(" ", "")
+        m = re.fullmatch(r"MessageCategory::(\w+)", r) or re.fullmatch(r"MessageCategory::(\w+)", l)
+        side = l if re.fullmatch(r"MessageCategory::(\w+)", r) else r
+        if m and side.endswith("category()") and m.group(1) in ORDER:
+            a, b = ORDER[cat], ORDER[m.group(1)]
+            if side == r:  # constant on the left: flip
+                a, b = b, a
+            return {"==": a == b, "!=": a != b, ">=": a >= b, "<=": a <= b, ">": a > b, "<": a < b}[e["op"]]
+    if k == "Macro" and e["name"].endswith("matches") and e.get("parsed") and e["args"] and render(strip(e["args"][0])).replace(" ", "").endswith("category()"):
+        cats = [last(x) for x in re.findall(r"MessageCategory::\w+", render(e["pat"]))]
+        if cats:
+            return cat in cats
+    return None
+
+
 def filter_tolerance():
-    """How does cli::filter_by_file treat a report without primary labels?
-    returns (tolerant_categories:set | 'all' | None, description)."""
+    """How does cli::filter_by_file treat a report without primary labels?  The function is evaluated on all its
+    structured paths for `primary_file_ids()` empty and each category.
+    returns (set of categories that pass | 'all' | None, description)."""
+    from pathcond import enumerate_paths
     fn = find_fn(MAIN, "filter_by_file")
     if fn is None:
         return None, "filter_by_file not found"
-    body = fn["body"]
-    text = render(body).replace(" ", "")
-    # idioms: `primary_file_ids().is_empty() || any(..)`  /  early return under is_empty()
-    tol = set()
-    desc = render(body)[:300]
-    for n in walk(body):
-        if n["k"] == "MethodCall" and n["method"] == "is_empty" and "primary_file_ids" in render(n["recv"]):
-            # find what is returned under it
-            # case 1: `X.is_empty() || ...` as (part of) the tail expression
-            if re.search(r"primary_file_ids\(\)\.is_empty\(\)\|\|", text):
-                return "all", desc
-            # case 2: if X.is_empty() { return <expr>; }
-            for i in walk(body):
-                if i["k"] == "If" and "primary_file_ids().is_empty()" in render(i["cond"]).replace(" ", ""):
-                    t = render(i["then"]).replace(" ", "")
-                    if "true" in t and "MessageCategory" not in t:
-                        return "all", desc
-                    cats = set(re.findall(r"MessageCategory::(\w+)", t))
-                    if cats:
-                        if ">=" in t and "Warning" in cats:
-                            return {"Error", "Warning"}, desc
-                        return cats, desc
-    return tol, desc
+    desc = render(fn["body"])[:300]
+    passes = set()
+    unknown = False
+    for cat in ORDER:
+        result = None
+        decided = False
+        for facts_, atoms, ex in enumerate_paths(fn["body"]):
+            feasible = True
+            for f in facts_:
+                if f[0] == "if":
+                    v = _ev(f[1], cat)
+                    if v is not None and v != f[2]:
+                        feasible = False
+                elif f[0] == "notall":
+                    vs = [(_ev(x[1], cat), x[2]) for x in f[1] if x[0] == "if"]
+                    if vs and len(vs) == len(f[1]) and all(v is not None and v == pol for v, pol in vs):
+                        feasible = False
+            if not feasible:
+                continue
+            # value of the path: the returned / tail expression is the last atom
+            val = None
+            if atoms:
+                lastn = atoms[-1]
+                if lastn["k"] == "Return":
+                    val = _ev(lastn["e"], cat) if lastn.get("e") else None
+                else:
+                    val = _ev(lastn, cat)
+            if val is None:
+                unknown = True
+            elif val:
+                result = True if result in (None, True) else "mixed"
+                decided = True
+            else:
+                result = False if result in (None, False) else "mixed"
+                decided = True
+        if result is True:
+            passes.add(cat)
+        elif result == "mixed" or not decided:
+            unknown = True
+    if unknown:
+        return None, "cannot evaluate filter_by_file for a label-less report: " + desc
+    if passes == set(ORDER):
+        return "all", desc
+    return passes, desc
